@@ -251,6 +251,22 @@ def py_repro(job, step):
             f"' | PYTHONPATH=$VERIF_REPO /venv/bin/python c07.py   # call {step}: compare with the same call made first in a fresh process")
 
 
+def valid_case(job):
+    """add() is only ever attempted on modules an earlier call has elaborated (otherwise it edits the design)."""
+    d = full_design(job)
+    n = len(job["design"])
+    done = set()
+    for op in job["ops"]:
+        if op[0] == "NP":
+            n += 1
+        elif op[0] == "ADD":
+            if op[1] not in done:
+                return False
+        else:
+            done |= reach(d[:n], op_tops(op))
+    return True
+
+
 def shrink(job, refs, mode):
     """Greedy deletion of single calls / final exports while the case keeps a code-1 verdict."""
     cur = job
@@ -262,6 +278,7 @@ def shrink(job, refs, mode):
             cands.append(dict(cur, ops=cur["ops"][:k] + cur["ops"][k + 1:]))
         for k in range(len(cur["final"])):
             cands.append(dict(cur, final=cur["final"][:k] + cur["final"][k + 1:]))
+        cands = [c for c in cands if valid_case(c)]
         if not cands:
             break
         _, res = evaluate("shrink", cands, refs, mode)
@@ -429,7 +446,7 @@ def run(run, tier, seed, replay=None):
     run.coverage["pass_list_classes_distinct"] = not tb
     if tb:
         run.notes.append("the default pass list repeats a pass class (shared class-level cache): the repeated entries never run a "
-                         "body; the theorems of Props/C07.v assume distinct caches and then apply to the effective entries only")
+                         "body (`eff` = false in Model/C07PassMgr.v); the theorems of Props/C07.v cover such lists")
 
     # ---------------------------------------------------------------- corpus (new interpreter per history)
     jobs = corpus()
